@@ -689,6 +689,51 @@ func c07CheckNest(c c07NestCase) engine.Result {
 	return res
 }
 
+// ---- scenario "crc-looks-like-stuffing" ------------------------------------------------------------
+
+type c07ForgeCase struct {
+	Entries int    `json:"entries"`
+	Free    int    `json:"forged_entry"`
+	Target  uint32 `json:"crc_32"`
+}
+
+// c07CheckForge: a PAT whose CRC_32 field is forged (through the 32 bits of one entry) to bytes that read
+// like the stuffing behind the section, like zeros or like sync bytes; the table is whatever that entry
+// came out as, and every carrier must report exactly it.
+func c07CheckForge(c c07ForgeCase) engine.Result {
+	var res engine.Result
+	sec := ref.PATSection{TSID: 0x0102, Version: 3, CurrentNext: true}
+	for i := 0; i < c.Entries; i++ {
+		sec.Entries = append(sec.Entries, ref.PATEntry{Program: uint16(i + 1), PID: 0x100 + i*0x11, Reserved: 7})
+	}
+	b := sec.Bytes()
+	off := 8 + 4*c.Free
+	if !ref.ForgeCRC(b[:len(b)-4], off, c.Target) {
+		res.Failf("harness|crc-forgery-failed", "target %#x", c.Target)
+		return res
+	}
+	v := uint32(b[off])<<24 | uint32(b[off+1])<<16 | uint32(b[off+2])<<8 | uint32(b[off+3])
+	sec.Entries[c.Free] = ref.PATEntry{Program: uint16(v >> 16), Reserved: byte(v >> 13 & 7), PID: int(v & 0x1FFF)}
+	nb := sec.Bytes()
+	if ref.CRC32MPEG2(nb[:len(nb)-4]) != c.Target {
+		res.Failf("harness|crc-forgery-failed", "rebuilt section has another CRC")
+		return res
+	}
+	// duplicate non-zero program numbers are outside the asserted space (see the file header)
+	seen := map[uint16]bool{}
+	for _, e := range sec.Entries {
+		if e.Program != 0 && seen[e.Program] {
+			res.Event("forged entry duplicates a program number: skipped")
+			return res
+		}
+		seen[e.Program] = true
+	}
+	engine.Guard(&res, "PAT-forged-crc", func() { c07Carriers(&res, &sec, 5, false) })
+	res.Nontrivial = 1
+	res.Outcome(c.Entries, c.Free, c.Target)
+	return res
+}
+
 // ---- scenario "nil-pat" ------------------------------------------------------------------------
 
 type c07NilCase struct {
@@ -855,6 +900,20 @@ func init() {
 					}
 				},
 				Check: c07CheckReuse, Batch: 64, // one batch = one worker: the cases run back to back, undisturbed by other goroutines
+			},
+			&engine.Enum[c07ForgeCase]{
+				Name: "crc-looks-like-stuffing",
+				Rule: "PATs of 1, 2, 3 and 42 entries in which the 32 bits of one entry (first, middle, last) are solved for so that the CRC_32 field holds FFFFFFFF, 00000000, FF000000, 000000FF, FFFFFF00, 00FFFFFF or 47474747 (bytes that read like the stuffing behind the section, like zeros or like sync bytes); all carriers and the full oracle of 'sections'",
+				Gen: func(r *engine.Run, emit func(c07ForgeCase)) {
+					for _, n := range []int{1, 2, 3, 42} {
+						for _, f := range []int{0, n / 2, n - 1} {
+							for _, t := range c14StuffingLikeCRCs {
+								emit(c07ForgeCase{n, f, t})
+							}
+						}
+					}
+				},
+				Check: c07CheckForge, Batch: 4,
 			},
 			&engine.Enum[c07NestCase]{
 				Name: "nested-readers",
